@@ -276,7 +276,14 @@ func (q *Queue) handleDebugQueue(w http.ResponseWriter, r *http.Request) {
 // SetIndexed sets what the currently indexed options are for opts.RepoID.
 func (q *Queue) SetIndexed(opts IndexOptions, state indexState) {
 	q.mu.Lock()
-	item := q.getOrAdd(opts.RepoID)
+	item, ok := q.items[opts.RepoID]
+	if !ok {
+		// We have no options for this repository (eg it was removed while it was
+		// being indexed). opts are the only options we know, so remember them.
+		// Otherwise Bump would enqueue the zero IndexOptions.
+		item = q.getOrAdd(opts.RepoID)
+		item.opts = opts
+	}
 
 	item.indexState = state
 	if state != indexStateFail {
